@@ -373,9 +373,22 @@ where
         Ok(true)
     }
 
+    /// Verification hook: read-only copy of the row offsets, the column
+    /// vector and the cached edge count.
+    #[cfg(feature = "verif-hooks")]
+    pub fn verif_raw(&self) -> (Vec<usize>, Vec<usize>, usize) {
+        (
+            self.row.clone(),
+            self.column.iter().map(|c| c.index()).collect(),
+            self.edge_count,
+        )
+    }
+
     fn find_edge_pos(&self, a: NodeIndex<Ix>, b: NodeIndex<Ix>) -> Result<usize, usize> {
         let (index, neighbors) = self.neighbors_of(a);
         if neighbors.len() < BINARY_SEARCH_CUTOFF {
+            #[cfg(feature = "verif-hooks")]
+            crate::verif::hit(crate::verif::Site::csr_find_linear);
             for (i, elt) in neighbors.iter().enumerate() {
                 match elt.cmp(&b) {
                     Ordering::Equal => return Ok(i + index),
@@ -385,6 +398,8 @@ where
             }
             Err(neighbors.len() + index)
         } else {
+            #[cfg(feature = "verif-hooks")]
+            crate::verif::hit(crate::verif::Site::csr_find_binary);
             match neighbors.binary_search(&b) {
                 Ok(i) => Ok(i + index),
                 Err(i) => Err(i + index),
